@@ -25,6 +25,11 @@ type Conn struct {
 	closedByNode bool
 	closedByPeer bool
 
+	// stallWrites makes every Write of the node block until the connection is closed (the peer has
+	// stopped reading and the transport's buffers are full)
+	stallWrites   bool
+	blockedWrites int
+
 	// MaxRead > 0 makes every Read return at most that many bytes (short reads: the stream arrives
 	// in pieces, as over TCP)
 	MaxRead int
@@ -75,6 +80,15 @@ func (c *Conn) Write(b []byte) (int, error) {
 	if c.closedByPeer {
 		return 0, io.ErrClosedPipe
 	}
+	for c.stallWrites {
+		c.blockedWrites++
+		c.cond.Broadcast()
+		c.cond.Wait()
+		c.blockedWrites--
+		if c.closedByNode || c.closedByPeer {
+			return 0, io.ErrClosedPipe
+		}
+	}
 	c.out = append(c.out, b...)
 	c.cond.Broadcast()
 	return len(b), nil
@@ -109,6 +123,28 @@ func (c *Conn) Send(b []byte) {
 	c.written += len(b)
 	c.cond.Broadcast()
 	c.mu.Unlock()
+}
+
+// StallWrites: from now on the peer no longer reads; the node's writes block.
+func (c *Conn) StallWrites() {
+	c.mu.Lock()
+	c.stallWrites = true
+	c.mu.Unlock()
+}
+
+// ResumeWrites: the peer reads again.
+func (c *Conn) ResumeWrites() {
+	c.mu.Lock()
+	c.stallWrites = false
+	c.cond.Broadcast()
+	c.mu.Unlock()
+}
+
+// BlockedWrites reports how many writes of the node are currently blocked.
+func (c *Conn) BlockedWrites() int {
+	c.mu.Lock()
+	defer c.mu.Unlock()
+	return c.blockedWrites
 }
 
 // PeerClose closes the connection from the peer's side.
